@@ -1,7 +1,7 @@
 CONSTANTS
   HashMode = "collide"
   Bug = "none"
-  Sweeps = {"small", "hsmall", "xsmall", "ssmall", "ksmall", "nsmall", "fsmall"}
+  Sweeps = {"small", "hsmall", "xsmall", "ssmall", "ksmall", "nsmall", "fsmall", "hpsmall", "hdsmall"}
   PairDepth = 2
   NearDepth = 2
   DeepDepth = 3
@@ -9,6 +9,7 @@ CONSTANTS
   XDepth = 2
   SelfDepth = 3
   FormDepth = 3
+  HeapDepth = 3
   Wide = TRUE
   EmitCases = FALSE
 INIT Init
